@@ -10,13 +10,13 @@ META={
  "C01":M("exploration","C01","guard-page / cap==len input buffers (home-made memory sanitizer), panic recovery, child-process crash isolation with traced re-run, stall + hang watchdog, -race/checkptr build in thorough",
    "Every registered detector, the un-sliced tree walk and Detect are driven with every seed at every prefix length, injected 32-bit field values, mutants and targeted arithmetic families (zip/CRX/OLE/Matroska/escape tails/small boxes/nesting bombs), each input ending exactly at an inaccessible page with cap == len, under 10 limits incl. 0 and 2^32-1; readers and files on a subset. A panic, a fault on the guard page, a nil result or a non-returning call is a violation."+HELD,
    "Trusted: Go runtime bounds checks, mmap/mprotect semantics, the watchdog thresholds (75 s stall, 90 s single case). linux/amd64 only."),
- "C02":M("exploration","C02","result-invariant monitor (written from the statement) over every (value, error) returned under hostile charset labels, all entry points, failing readers / seekers / files",
+ "C02":M("exploration","C02","result-invariant monitor (written from the statement) over every (value, error) returned under hostile charset labels, all entry points, failing readers / seekers / files, strace-injected kernel faults (close/read EIO), extended trees",
    "Every single byte 0x09-0xFF and runs over a hostile alphabet are spliced as charset labels into 9 declaration syntaxes; readers fail at every offset class, seekers fail, files are missing or directories; plus every seed prefix, mutants and generated documents. Each returned value is checked: String() parses, type registered, only charset on the three text types, finite bare registered ancestors ending at application/octet-stream, error => exactly application/octet-stream."+HELD,
    "Trusted: mime.ParseMediaType as the definition of validity; the snapshot hook for the set of registered names."),
- "C03":M("exploration","C03","online trace-specification checking of recorded detector-call events (instrumentation hook) + independent reference walk",
+ "C03":M("exploration","C03","online trace-specification checking of recorded detector-call events (instrumentation hook) + independent reference walk, also under a concurrent registrar / concurrent SetLimit",
    "All detector calls of each detection are recorded through a build-tagged hook (node, buffer pointer, len, limit, answer) and checked online against the first-match depth-first specification (no skip / backtrack / reorder, same header and limit everywhere, result chain = accepting path), then against an independent iterative walk, on the built-in tree and on trees enlarged by random Extend histories, with greybox input mutation keyed on new accept paths."+HELD,
    "Trusted: leaf detector funcs are shared with the model (their purity is C04); the hook wraps detectors under the tree lock."),
- "C05":M("fault_enumeration","C05","instrumented io.Reader (byte counter, chunk scheduler, error injector) with expectations derived from observed reader events; file-system faults",
+ "C05":M("fault_enumeration","C05","instrumented io.Reader (byte counter, chunk scheduler, error injector) with expectations derived from observed reader events; standard-library reader zoo with consumption checks; file-system faults (missing, directory, /proc/self/mem, procfs size 0)",
    "For every seed and limit class a sentinel error is injected at every byte offset 0..min(len, limit) (every k-th beyond 600 bytes) under 8 chunk schedules with (0,nil) reads, data+EOF and data+error returns; DetectFile over temp files, missing path, directory, /proc/self/mem; limit changed during the read. Checked: same chain as Detect on the bytes, bytes consumed <= limit (all when 0), error => (application/octet-stream, that error) exactly when the reader really failed before the header was complete."+HELD,
    "Trusted: only conforming readers; io.ReadFull semantics for an error returned with the completing byte."),
  "C07":M("exploration","C07","independent byte-class oracle over injected inputs, every result of the real Detect/DetectReader observed",
